@@ -12,7 +12,7 @@ def product_cases(rng):
     """The finite product method-level x controller-level x default x enforce, with a visible and a
     hidden method per project (a seeded sample in quick, all of it in thorough)."""
     import os as _os
-    levels = [[], [{"name": "sec1", "scopes": []}], [{"name": "sec1", "scopes": ["a"]}, {"name": "sec2", "scopes": []}],
+    levels = [[], [{"name": "sec1", "scopes": []}], [{"name": "sec1", "scopes": ["a&b<c>d's"]}, {"name": "sec2", "scopes": []}],
               [{"name": "sec2", "scopes": ["a"]}, {"name": "sec2", "scopes": ["a"]}]]
     out = []
     for ms in levels:
@@ -44,7 +44,8 @@ def router_half(res, projects, obs):
     import project as P
     from common import run_coq_file, parse_nat_list
     accepted = [p for k, p in enumerate(projects) if obs[k]["3.0.0"]["exit"] == 0 and
-                len(set(c["name"] for c in p["controllers"])) == len(p["controllers"])][:6]
+                len(set(c["name"] for c in p["controllers"])) == len(p["controllers"])]
+    accepted = accepted[:3] + accepted[3:][-3:]      # product cases come first, randomly generated projects last
     if not accepted:
         return
     moddir, results = R.generate_routes("C04_routes", accepted)
@@ -65,11 +66,21 @@ def router_half(res, projects, obs):
     failing = parse_nat_list(out, "failing")
     for i in failing[:2]:
         k, e = meta[i]
+        import c12 as C12
+        concrete = []
+        for r in results[k][e]["hir"]["registrations"]:
+            for c in accepted[k]["controllers"]:
+                for m in c["methods"]:
+                    if m["name"] == r["op_id"] and c["name"] == r["ctrl_type"]:
+                        want = [[{"scheme": x["name"], "scopes": list(x["scopes"])}] for x in C12.effective_security(accepted[k], c, m)]
+                        got = [[{"scheme": y["scheme"], "scopes": list(y["scopes"] or [])} for y in alt] for alt in r["alts"]]
+                        if want != got:
+                            concrete.append({"operation": "%s.%s" % (c["name"], m["name"]), "documented": want, "enforced_by_router": got})
         res.violation({"kind": "translation-obligation", "obligation": "RouterGate.router_ok (engine %s)" % e,
-                       "input": accepted[k], "engine": e,
+                       "input": accepted[k], "engine": e, "documented_vs_enforced": concrete[:4],
                        "gates": [{"op": r["op_id"], "alts": r["alts"], "gate_ok": r["gate_ok"]} for r in results[k][e]["hir"]["registrations"]],
                        "note": "the security the generated router enforces differs from the effective (documented) security"},
-                      no_input=True)
+                      no_input=not concrete)
     res.coverage["router_files_translated"] = len(rows)
     res.coverage["obligations"] = res.coverage.get("obligations", 0) + len(rows)
     res.coverage["discharged"] = res.coverage.get("discharged", 0) + len(rows) - len(failing)
